@@ -287,7 +287,7 @@ structure SiteOk (s : Site) : Prop where
   docs : ∀ d ∈ s.docs, safeRel d.1 = true
   lists : ∀ l ∈ s.lists, safeRel l = true
   srcFiles : ∀ n ∈ s.srcFiles, safeRel n = true
-  graphs : ∀ n ∈ s.graphs, '/' ∉ n
+  graphs : ∀ n ∈ s.graphs, '/' ∉ n ∧ n ≠ dotdot
   pages : ∀ pg ∈ s.pages, safeRel pg.loc = true ∧ '/' ∉ pg.stem ∧ (∀ f ∈ pg.files, safeRel f = true) ∧
     ∀ pc ∈ pg.copies, ∀ t, pc.tree = some t → (∀ e ∈ t.walk, safeRel e.2 = true) ∧ ∀ e ∈ t.touch, safeRel e = true
 
